@@ -1,9 +1,17 @@
 import verif
 
+MANIFEST = dict(
+
+   text="Machine-checked Coq theorems, for every 64-bit input: IntegerSquareroot = floor sqrt (Newton iteration, fuel and overflow discharged); IsPowerOfTwo iff 2^k; NextPowerOfTwo = 2^log2_up (bit-smearing lemma) or 0 when unrepresentable; EpochStartSlot/TimeAtSlot return the exact value iff representable else the error; CheckSlotSpan, CommitteeCount, churn, activation-exit epoch equal the spec formula; VerifyMerkleBranch = is_valid_merkle_branch for any hash function. The hand-written Impl model is tied to /repo on every run by differential execution of Go vs model (vm_compute) on the boundary set and random inputs; a Go/Spec disagreement is reported with the input.",
+   note="Trusted: Coq kernel+VM, the Go harness/driver, the hand-written model (tied by execution, not translation), hash as a Section variable. No axioms (Print Assumptions: closed). Zero divisors in the config are outside the domain.",
+   technique="Coq proof (induction/arith/bit lemmas) + Go-vs-model differential correspondence",
+   design="4/C19")
+
 
 def make_check():
     return verif.Check(
         "C19",
+        make_targets=["Properties/C19.vo", "Math/MathRun.vo"],
         trust=[
             "Section variables of the Merkle theorems: the hash H, concatenation and equality on byte strings (no laws assumed)",
             "hand-written Impl model Math/MathModel.v of math_util.go, crypto_util.go, time.go, CommitteeCount, CheckSlotSpan; tied to /repo by differential execution on the boundary set, not by translation",
